@@ -16,16 +16,20 @@ from . import common as C
 
 # grouped so that the children take about the same time (numba compilation dominates)
 GROUPS = [
-    ["TokenCooccurrenceVectorizer", "SequentialDifferenceTransformer", "CategoricalColumnTransformer"],
-    ["TimedTokenCooccurrenceVectorizer", "HistogramVectorizer", "KDEVectorizer"],
-    ["NgramCooccurrenceVectorizer", "EdgeListVectorizer", "DistributionVectorizer"],
-    ["MultiSetCooccurrenceVectorizer", "NgramVectorizer", "SlidingWindowTransformer"],
-    ["SkipgramVectorizer", "LZCompressionVectorizer", "BytePairEncodingVectorizer", "LabelledTreeCooccurrenceVectorizer"],
+    ["TokenCooccurrenceVectorizer", "SequentialDifferenceTransformer"],
+    ["TimedTokenCooccurrenceVectorizer", "CategoricalColumnTransformer"],
+    ["NgramCooccurrenceVectorizer", "HistogramVectorizer"],
+    ["MultiSetCooccurrenceVectorizer", "KDEVectorizer"],
+    ["SkipgramVectorizer", "EdgeListVectorizer", "SlidingWindowTransformer"],
+    ["LZCompressionVectorizer", "BytePairEncodingVectorizer", "NgramVectorizer"],
+    ["LabelledTreeCooccurrenceVectorizer", "DistributionVectorizer"],
     ["WassersteinVectorizer"],
-    ["SinkhornVectorizer", "ApproximateWassersteinVectorizer"],
-    ["InformationWeightTransformer", "RowDenoisingTransformer", "CountFeatureCompressionTransformer"],
+    ["WassersteinVectorizer"],
+    ["SinkhornVectorizer"],
+    ["ApproximateWassersteinVectorizer", "CountFeatureCompressionTransformer"],
+    ["InformationWeightTransformer", "RowDenoisingTransformer"],
 ]
-ALL = [n for g in GROUPS for n in g]
+ALL = sorted({n for g in GROUPS for n in g})
 # exported but not runnable here / excluded from a claim (said in the manifest):
 NOT_RUN = {"SignatureVectorizer": "needs the optional dependency iisignature, which is not installed"}
 
@@ -62,16 +66,14 @@ def run(ctx, replay=None):
     else:
         # seeds are drawn from ctx.rng; every estimator is covered in both tiers, the Wasserstein family (the only
         # one with temporary files and fault points) more densely
-        per = 3 if ctx.quick else 24
+        per = 2 if ctx.quick else 24
         batches = []
         for g in GROUPS:
             jobs = []
             for name in g:
-                k = per * (4 if name == "WassersteinVectorizer" else 1)
+                k = per * (2 if name == "WassersteinVectorizer" else 1)     # two Wasserstein groups: 4x in total
                 jobs += [[name, ctx.rng.randrange(10 ** 6)] for _ in range(k)]
             batches.append(jobs)
-        if not ctx.quick:                      # split the long batches so that 16 children run
-            batches = [b[i::2] for b in batches for i in (0, 1)]
     ctx.coverage["rule"] = ("one scenario per (estimator, seed): random constructor parameters (incl. caller dictionaries / index "
                             "arrays), random small valid data (sparse inputs with unsorted indices and explicit zeros, lists of "
                             "arrays, generators, data frames), optional faulting fit, fit or fit_transform, a history of 3-6 "
@@ -92,10 +94,11 @@ def run(ctx, replay=None):
         "by an invalid reference distribution (natural ValueError in block 1) and by a generator that raises at item k",
         "Coq side: K20 is a model of which objects are shared and which operations mutate, not of the numerics",
     ]
-    with ThreadPoolExecutor(max_workers=16) as ex:
+    with ThreadPoolExecutor(max_workers=12) as ex:
         results = list(ex.map(run_child, batches))
     n_calls = n_raised = 0
     aliases, faults, per_est, errors = {}, {}, {}, []
+    ctx.coverage["child_wall_s"] = {"+".join(sorted({j[0] for j in jobs})): info["wall_s"] for jobs, _, info in results}
     for jobs, res, info in results:
         done = len(res) if res else 0
         if res is None or done != len(jobs):
